@@ -121,6 +121,17 @@ pub proof fn lemma_lex_antisym(a: Seq<u8>, b: Seq<u8>)
 {
     if a.len() > 0 && b.len() > 0 && a[0] == b[0] { lemma_lex_antisym(a.drop_first(), b.drop_first()); }
 }
+/// antisymmetry available automatically wherever a comparison appears (so that `a < b` and `b > a` in the code are
+/// interchangeable for the proofs: a swapped operand order must not need a different proof script)
+pub broadcast proof fn lemma_lex_antisym_auto(a: Seq<u8>, b: Seq<u8>)
+    ensures
+        (#[trigger] lex_cmp(a, b) == core::cmp::Ordering::Less) <==> lex_cmp(b, a) == core::cmp::Ordering::Greater,
+        lex_cmp(a, b) == core::cmp::Ordering::Equal <==> lex_cmp(b, a) == core::cmp::Ordering::Equal,
+        lex_cmp(a, b) == core::cmp::Ordering::Greater <==> lex_cmp(b, a) == core::cmp::Ordering::Less,
+{
+    lemma_lex_antisym(a, b); lemma_lex_antisym(b, a);
+    lemma_lex_antisym(b, a); lemma_lex_antisym(a, b);
+}
 pub proof fn lemma_lex_eq(a: Seq<u8>, b: Seq<u8>)
     ensures lex_cmp(a, b) == core::cmp::Ordering::Equal <==> a == b,
     decreases a.len()
@@ -632,7 +643,7 @@ pub proof fn lemma_lower_included(es: Seq<Ent>, s: Seq<u8>, c: int)
     requires is_ceil(es, s, c),
     ensures is_lower(es, core::ops::Bound::Included(s), c),
 {
-    assert forall|j: int| 0 <= j < c implies !sat_start(core::ops::Bound::Included(s), #[trigger] es[j].0) by { lemma_lex_antisym(es[j].0, s); }
+    assert forall|j: int| 0 <= j < c implies !sat_start(core::ops::Bound::Included(s), #[trigger] es[j].0) by { lemma_lex_antisym(es[j].0, s); lemma_lex_antisym(s, es[j].0); }
 }
 pub proof fn lemma_lower_excluded(es: Seq<Ent>, s: Seq<u8>, c: int)
     requires sorted_strict(es), is_ceil(es, s, c),
@@ -643,11 +654,11 @@ pub proof fn lemma_lower_excluded(es: Seq<Ent>, s: Seq<u8>, c: int)
     let b = core::ops::Bound::Excluded(s);
     if c < es.len() && es[c].0 == s {
         assert forall|j: int| 0 <= j < c + 1 implies !sat_start(b, #[trigger] es[j].0) by {
-            if j < c { lemma_lex_antisym(es[j].0, s); } else { lemma_lex_irrefl(s); }
+            if j < c { lemma_lex_antisym(es[j].0, s); lemma_lex_antisym(s, es[j].0); } else { lemma_lex_irrefl(s); }
         }
         if c + 1 < es.len() { assert(lex_lt(es[c].0, es[c + 1].0)); }
     } else {
-        assert forall|j: int| 0 <= j < c implies !sat_start(b, #[trigger] es[j].0) by { lemma_lex_antisym(es[j].0, s); }
+        assert forall|j: int| 0 <= j < c implies !sat_start(b, #[trigger] es[j].0) by { lemma_lex_antisym(es[j].0, s); lemma_lex_antisym(s, es[j].0); }
         if c < es.len() { lemma_lex_eq(s, es[c].0); }
     }
 }
@@ -655,7 +666,7 @@ pub proof fn lemma_upper_included(es: Seq<Ent>, e: Seq<u8>, f: int)
     requires is_floor(es, e, f),
     ensures is_upper(es, core::ops::Bound::Included(e), f),
 {
-    assert forall|j: int| f < j < es.len() implies !sat_end(core::ops::Bound::Included(e), #[trigger] es[j].0) by { lemma_lex_antisym(e, es[j].0); }
+    assert forall|j: int| f < j < es.len() implies !sat_end(core::ops::Bound::Included(e), #[trigger] es[j].0) by { lemma_lex_antisym(e, es[j].0); lemma_lex_antisym(es[j].0, e); }
 }
 pub proof fn lemma_upper_excluded(es: Seq<Ent>, e: Seq<u8>, f: int)
     requires sorted_strict(es), is_floor(es, e, f),
@@ -666,11 +677,11 @@ pub proof fn lemma_upper_excluded(es: Seq<Ent>, e: Seq<u8>, f: int)
     let b = core::ops::Bound::Excluded(e);
     if f >= 0 && es[f].0 == e {
         assert forall|j: int| f - 1 < j < es.len() implies !sat_end(b, #[trigger] es[j].0) by {
-            if j > f { lemma_lex_antisym(e, es[j].0); } else { lemma_lex_irrefl(e); }
+            if j > f { lemma_lex_antisym(e, es[j].0); lemma_lex_antisym(es[j].0, e); } else { lemma_lex_irrefl(e); }
         }
         if f - 1 >= 0 { assert(lex_lt(es[f - 1].0, es[f].0)); }
     } else {
-        assert forall|j: int| f < j < es.len() implies !sat_end(b, #[trigger] es[j].0) by { lemma_lex_antisym(e, es[j].0); }
+        assert forall|j: int| f < j < es.len() implies !sat_end(b, #[trigger] es[j].0) by { lemma_lex_antisym(e, es[j].0); lemma_lex_antisym(es[j].0, e); }
         if f >= 0 { lemma_lex_eq(es[f].0, e); }
     }
 }
@@ -885,7 +896,7 @@ pub proof fn lemma_prefix_window_fwd(es: Seq<Ent>, p: Seq<u8>, c: int, b: int)
         forall|j: int| 0 <= j < es.len() ==> ((c <= j < b) <==> p.is_prefix_of(#[trigger] es[j].0)),
 {
     assert forall|j: int| 0 <= j < es.len() implies ((c <= j < b) <==> p.is_prefix_of(#[trigger] es[j].0)) by {
-        if j < c && p.is_prefix_of(es[j].0) { lemma_prefix_le(p, es[j].0); lemma_lex_antisym(es[j].0, p); }
+        if j < c && p.is_prefix_of(es[j].0) { lemma_prefix_le(p, es[j].0); lemma_lex_antisym(es[j].0, p); lemma_lex_antisym(p, es[j].0); }
         if j >= b && p.is_prefix_of(es[j].0) {
             // es[b] >= p and lacks the prefix, so adv(p) exists and es[b] >= adv(p); es[j] >= es[b]
             if b > c { lemma_sorted_pairwise(es, c, b); lemma_lex_trans2(p, es[c].0, es[b].0); }
@@ -928,7 +939,7 @@ pub proof fn lemma_prefix_window_rev(es: Seq<Ent>, p: Seq<u8>, u: int, l: int)
 pub proof fn lemma_antisym_lt(a: Seq<u8>, b: Seq<u8>)
     ensures !lex_le(a, b) ==> lex_lt(b, a),
 {
-    lemma_lex_antisym(a, b);
+    lemma_lex_antisym(a, b); lemma_lex_antisym(b, a);
 }
 
 } // mod ghost
